@@ -153,7 +153,7 @@ func (_this *ptrBuilder) BuildFromCustomText(ctx *Context, customType uint64, va
 
 func (_this *ptrBuilder) BuildFromMedia(ctx *Context, mediaType string, data []byte, dst reflect.Value) reflect.Value {
 	ptr := _this.newElem()
-	_this.elemGenerator(ctx).BuildFromMedia(ctx, mediaType, data, dst)
+	_this.elemGenerator(ctx).BuildFromMedia(ctx, mediaType, data, ptr.Elem())
 	dst.Set(ptr)
 	return dst
 }
